@@ -4,6 +4,7 @@ package main
 
 import (
 	"net/http"
+	"net/url"
 	"strings"
 	"time"
 
@@ -154,4 +155,60 @@ func VerifC06_Twin() {
 	zzServe(h, req)
 	zzverif.Assert(!ran, "twin-must-fail")
 	zzverif.Reach("twin")
+}
+
+// The declaration as it is written in a program: `+ auth(jwt)` anywhere among
+// the other route directives (before or after an injection-free mix of query
+// parameter declarations with and without defaults), parsed from source text, wired by the real setupRoutes and served
+// through createHandler in both modes. Without the configured credential the
+// body never runs, whatever else the request carries.
+var zzC06Directives = []string{
+	"  ? page: int = 1\n",
+	"  ? q: str\n",
+	"  ? flag: bool\n",
+	"  ? size: int = 10 + 5\n",
+}
+
+func VerifC06_DeclarationFromSource() {
+	zzverif.Setenv(envJWTSecret, "s3")
+	zzverif.AdvanceClock(0) // time stands still: lockout timing is VerifC06_Lockout's subject
+	before := zzverif.Choice("directives before the auth line", len(zzC06Directives)+1)
+	after := zzverif.Choice("directives after the auth line", len(zzC06Directives)+1)
+	src := "@ GET /p {\n"
+	for k := 0; k < before; k++ {
+		src += zzC06Directives[k]
+	}
+	src += "  + auth(jwt)\n"
+	for k := 0; k < after; k++ {
+		src += zzC06Directives[len(zzC06Directives)-1-k]
+	}
+	src += "  > {secret: 42}\n}\n"
+	module, err := parseSource(src)
+	if err != nil {
+		zzverif.Reach("c06-source") // a directive order the parser does not accept declares nothing
+		return
+	}
+	interpreted := zzverif.Bool("interpreted")
+	_, _, _, router, err := setupRoutes(module, "/app/main.glyph", interpreted)
+	if err != nil {
+		zzverif.Reach("c06-source")
+		return
+	}
+	q := []string{"", "page=2", "page=2&size=3&q=x"}[zzverif.Choice("query", 3)]
+	cred := zzverif.Choice("credential", 3) // none, wrong, right
+	req := &http.Request{Method: "GET", Header: http.Header{}, URL: &url.URL{Path: "/p", RawQuery: q}, RemoteAddr: "10.0.0.1:4000"}
+	switch cred {
+	case 1:
+		req.Header["Authorization"] = []string{"Bearer nope"}
+	case 2:
+		req.Header["Authorization"] = []string{"Bearer s3"}
+	}
+	rec := &zzRec{}
+	createHandler(router)(rec, req)
+	if cred != 2 {
+		zzverif.Assert(rec.status == 401 || rec.status == 429, "a route declaring + auth(jwt) in its source answered a request without the credential")
+	} else {
+		zzverif.Assert(rec.status == 200, "a valid credential was rejected by a route declaring + auth(jwt)")
+	}
+	zzverif.Reach("c06-source")
 }
